@@ -352,7 +352,7 @@ Proof.
   eapply good_bind; [apply Hev; assumption|]. intros v s E Ws Vs.
   apply good_bindo; [assumption|]. intros b Hb. destruct b.
   - destruct body.
-    + apply good_out; [assumption|]. intros a Ha. eapply wf_last_red; eauto.
+    + apply good_ret; [assumption|apply wf_primary; assumption].
     + apply ev_seq_wf; [assumption|eapply wf_scope_ext; eauto|apply wf_nil].
   - apply IH; [assumption|eapply wf_scope_ext; eauto].
 Qed.
@@ -410,9 +410,8 @@ Proof.
   induction ps as [|[x e] ps IH]; intros st sc last W S L; simpl; [apply good_ret; assumption|].
   eapply good_bind; [apply Hev; assumption|]. intros v s E Ws Vs.
   eapply good_bind; [apply assign_wf; [assumption|apply wf_primary; assumption]|]. intros u s2 E2 W2 _.
-  apply good_bindo; [assumption|]. intros r Hr.
   apply IH; [assumption|eapply wf_scope_ext; [exact E2|eapply wf_scope_ext; [exact E|exact S]]|].
-  eapply wf_val_ext; [exact E2|]. eapply wf_last_red; eauto.
+  eapply wf_val_ext; [exact E2|]. apply wf_primary; assumption.
 Qed.
 Lemma apply_fn_wf : forall st c args, wf_state st -> wf_callable st c -> wf_vals st args ->
   good_res st wf_val (apply_fn m ev st c args).
